@@ -112,10 +112,9 @@ ESCAPE_TRAITS = {"std::io::Read", "std::io::Write", "std::io::Seek", "std::io::B
                  "std::iter::FromIterator", "std::iter::Extend", "std::ops::Deref",
                  "std::cmp::PartialEq", "std::cmp::PartialOrd", "std::cmp::Ord", "std::default::Default",
                  "std::ops::Sub", "std::ops::Add", "std::convert::AsRef",
-                 "bitstream_io::write::Counter", "bitstream_io::Counter",
-                 "std::convert::From", "std::convert::TryFrom", "std::str::FromStr",
-                 "bitstream_io::FromBitStream", "bitstream_io::FromBitStreamWith", "bitstream_io::FromBitStreamUsing",
-                 "bitstream_io::ToBitStream", "bitstream_io::ToBitStreamWith", "bitstream_io::ToBitStreamUsing"}
+                 "bitstream_io::write::Counter", "bitstream_io::Counter"}
+# conversions (From/TryFrom/FromStr) and bitstream (de)serialisers are dispatched precisely by the
+# CONVERSIONS / BITIO tables above, not by the escape rule
 
 
 class CallGraph:
